@@ -19,6 +19,8 @@ def run(patch, props, quiet=False):
         known = report.load_known()
         out = {}
         for prop in props:
+            if not os.path.exists(os.path.join(VERIF, "lint", "props", prop + ".py")):
+                continue
             kk = {(k["rule"], k["instance"]) for k in known["findings"] if k["property"] == prop}
             led, ctx, nf, nc = M.decide(prop, "quick", 0, root=scratch)
             new = [o for o in led.obligations if not o["ok"] and (o["rule"], o["instance"]) not in kk]
